@@ -662,6 +662,17 @@ pub fn run(run: &mut Run) -> Result<(), String> {
     run.assume("bounds: see universes[].bounds");
     match prop.as_str() {
         "C06" | "C09" => {
+            if run.config.ends_with("-rel") {
+                // release profile: boards handed out by play and null moves around the clock limits
+                let mut plan = Plan::empty();
+                plan.mid = Some(b(1, 1));
+                plan.clock = Some(b(if q { 2 } else { 3 }, if q { 1 } else { 2 }));
+                plan.start = Some(b(2, 1));
+                run.tag = " [soundness only]".into();
+                run.rule = "release profile: every board handed out by play / null moves from the clock roots (half-move clock 98-100 x full-move number 65534/65535), R-MID and a shallow start tree must satisfy the C06 clause list".into();
+                run_plan(run, &plan, &C06 { acceptance: false }, &NoCand);
+                return Ok(());
+            }
             // reachability part: state monitor (acceptance / round trip)
             let mut plan = Plan::empty();
             if q {
@@ -739,6 +750,7 @@ pub fn run(run: &mut Run) -> Result<(), String> {
                 plan.walk = Some((240, 40, 2, 7, b(1, 1)));
                 plan.raws.push((Box::new(Material), b(0, 0)));
                 if prop == "C10" || prop == "C07" {
+                    plan.raws.push((Box::new(CastlePlay { visitors: vec![Kind::R] }), b(3, 0)));
                     plan.raws.push((Box::new(PromoUniverse { sliders: vec![Kind::R] }), b(1, 0)));
                     plan.raws.push((Box::new(EpUniverse::before_push(q)), b(1, 0)));
                     plan.raws.push((Box::new(TwoLines { enemy_kings: vec![35] }), b(if prop == "C10" { 1 } else { 0 }, 0)));
@@ -756,12 +768,18 @@ pub fn run(run: &mut Run) -> Result<(), String> {
                 if prop == "C12" {
                     plan.raws.push((Box::new(Checks { n: 2 }), b(0, 0)));
                     plan.raws.push((Box::new(EpCheck { second: vec![Kind::Q], files: (0..8).collect() }), b(0, 0)));
-                    plan.raws.push((Box::new(Caged { inner: Box::new(CheckPin { kings: vec![15, 55] }), variants: 3 }), b(0, 0)));
+                    plan.raws.push((Box::new(Caged { inner: Box::new(CheckPin { kings: vec![15, 55] }), variants: 3, mover: true }), b(0, 0)));
+                    plan.raws.push((Box::new(Caged { inner: Box::new(AddCastle { inner: Box::new(DoubleCheck { kings: vec![5, 59], own_kinds: vec![] }) }), variants: 3, mover: true }), b(0, 0)));
                 }
             } else {
+                if prop == "C10" || prop == "C07" {
+                    plan.raws.push((Box::new(CastlePlay { visitors: vec![Kind::R, Kind::Q, Kind::N] }), b(3, 1)));
+                }
                 if prop == "C12" {
-                    plan.raws.push((Box::new(Caged { inner: Box::new(CheckPin { kings: vec![15, 55, 12, 52, 20, 44, 0, 63, 27] }), variants: 3 }), b(0, 0)));
-                    plan.raws.push((Box::new(Caged { inner: Box::new(PinUniverse { kings: vec![15, 55, 12, 52, 0, 63, 27], far_side: false }), variants: 3 }), b(0, 0)));
+                    plan.raws.push((Box::new(Caged { inner: Box::new(AddCastle { inner: Box::new(DoubleCheck { kings: vec![1, 2, 3, 4, 5, 6, 57, 58, 59, 60, 61, 62], own_kinds: vec![] }) }), variants: 3, mover: true }), b(0, 0)));
+                    plan.raws.push((Box::new(Caged { inner: Box::new(AddCastle { inner: Box::new(Checks { n: 1 }) }), variants: 3, mover: true }), b(0, 0)));
+                    plan.raws.push((Box::new(Caged { inner: Box::new(CheckPin { kings: vec![15, 55, 12, 52, 20, 44, 0, 63, 27] }), variants: 3, mover: true }), b(0, 0)));
+                    plan.raws.push((Box::new(Caged { inner: Box::new(PinUniverse { kings: vec![15, 55, 12, 52, 0, 63, 27], far_side: false }), variants: 3, mover: true }), b(0, 0)));
                     plan.raws.push((Box::new(EpCheck { second: vec![Kind::B, Kind::R, Kind::Q], files: (0..8).collect() }), b(0, 0)));
                 }
                 plan.start = Some(b(5, 1));
